@@ -79,6 +79,17 @@ func (hs *heightSub) SetHeight(height uint64) {
 // It can return errElapsedHeight, which means a requested height was already seen
 // and caller should get it elsewhere.
 func (hs *heightSub) Wait(ctx context.Context, height uint64) error {
+	return hs.WaitOrCheck(ctx, height, nil)
+}
+
+// WaitOrCheck is [Wait] that, once the caller is registered for the height, calls check and
+// returns right away if it reports true.
+//
+// A header that is not adjacent to the current height does not advance it, so the only signal
+// for it is the one-off Notify. A caller whose lookup missed shortly before that Notify and who
+// registers shortly after it would never be woken: re-checking after the registration closes
+// that window, as the header is made accessible before Notify is called.
+func (hs *heightSub) WaitOrCheck(ctx context.Context, height uint64, check func() bool) error {
 	if hs.Height() >= height {
 		return errElapsedHeight
 	}
@@ -102,6 +113,18 @@ func (hs *heightSub) Wait(ctx context.Context, height uint64) error {
 	}
 	sac.count++
 	hs.heightSubsLk.Unlock()
+
+	if check != nil && check() {
+		select {
+		case <-sac.signal:
+			// notified meanwhile, the registration is gone already
+		default:
+			hs.heightSubsLk.Lock()
+			hs.notify(height, false)
+			hs.heightSubsLk.Unlock()
+		}
+		return nil
+	}
 
 	select {
 	case <-sac.signal:
